@@ -33,13 +33,17 @@ import Mathlib.Analysis.Real.Sqrt
   `dwt/idwt/wavedec/waverec/wavedecn/coeffs_to_array` compute the modelled formulas, that the filter taps of
   every orthogonal wavelet satisfy `OrthonormalLo`/`Orthonormal`/`Complete` (to 1e-10) and that `dec_hi` is the
   alternating flip of `dec_lo` (observed exact).
-  Not proved: the general `Orthonormal → Complete` (for a `g` that is not assumed to be the flip of `h`:
-  polyphase / dimension count); multi-level N-d: `pywt.wavedecn` recurses on the approximation block only
-  (level `j+1` acts on the sub-box `idx[a] < n_j[a]`, `a ∈ axes`, of the level-`j` output, not along whole axes)
-  and `coeffs_to_array` places the detail blocks at offsets given by the approximation shapes (leaving zero
-  filling where `2·n_{j+1} > n_j`); no Lean model of that block layout exists — it is validated by the
-  `shapes`/`packing` streams and the search oracle.  With a single transformed axis the N-d multi-level
-  transform is the 1-D one along that axis (covered by (3)–(4) per 1-D fibre).
+  Multi-level N-d (all levels, any rank / axes list / shape, `coeffs_to_array`'s block layout with its zero
+  filling, recursion on the approximation block only): proved in Props/C10Ml.lean (`fwtn_isometry`, `fwtn_adjoint`,
+  `fwtn_pr`, `fwtnOutShape_eq_waveShape`), model executed against the real code by the `ndlevels` stream.
+  Not proved: the general `Orthonormal → Complete` for a `g` that is not assumed to be the flip of `h`.  It is true
+  for finitely supported filters: with the 2×2 polyphase matrix `E(z)` over the commutative ring of Laurent
+  polynomials, `Orthonormal` is `E(z)·Ẽ(z) = I` and `Complete` is `Ẽ(z)·E(z) = I`, and a one-sided inverse of a
+  square matrix over a commutative ring is two-sided (`Matrix.mul_eq_one_comm`); the missing piece is the
+  translation of the `∑ᶠ`-over-ℤ identities into Laurent-polynomial matrix identities.  (Without finite support /
+  commutativity the implication fails: an isometry of ℓ² need not be onto.)  The alternating-flip hypothesis used
+  instead is an exactly checkable property of PyWavelets' taps (bit-for-bit, every run), whereas the orthonormality
+  sums only hold to ~1e-11.
 -/
 namespace SigpyVerif.C10
 open SigpyVerif Finset
@@ -670,19 +674,7 @@ theorem iwt1_is_adjoint (h g : List R) (hev : h.length % 2 = 0) (hpos : 0 < h.le
 
 /-! ### (3') separable N-d transform at level 1 as a composition of per-axis maps (arbitrary list of axes) -/
 
-/-- one level along an axis of length `N`, packed `[a | d]` (what `wavedecn(level=1)` + `coeffs_to_array`
-    put on a transformed axis), its transpose, and the packed length `2⌊(N+L-1)/2⌋` -/
-def level1Map (h g : ℤ → R) (L : ℕ) : AxisMap R where
-  fwd N x k := if k < dwtLen N L then ana h N x k else ana g N x (k - dwtLen N L)
-  bwd N c n := syn h g (dwtLen N L) c (fun k => c (dwtLen N L + k)) n
-  len N := 2 * dwtLen N L
-
-/-- sigpy's even padding along an axis of length `N` (extra zero in front for odd `N`), the centre crop back,
-    and the padded length -/
-def padMap : AxisMap R where
-  fwd N x k := if N % 2 = 0 then x k else if k = 0 then 0 else x (k - 1)
-  bwd N c n := c (n + N % 2)
-  len N := N + N % 2
+/- `level1Map`, `padMap` are defined in Model/C10Nd.lean (core, executed) -/
 
 theorem level1Map_isIso {L : ℕ} {h g : ℤ → R} (hh : SupportedOn L h) (hg : SupportedOn L g)
     (hc : Complete h g) : (level1Map h g L).IsIso := by
